@@ -385,7 +385,7 @@ def run(repo, rep, tier):
         "user quantity/transform functions are the only foreign code called from fill",
     ]
     prims, _ = primitives(repo)
-    r1 = rep.rule("R12.1", "no fallible operation after the first own-state store in fill (typestate on the CFG)", floor=20)
+    r1 = rep.rule("R12.1", "no fallible operation after the first own-state store in fill (typestate on the CFG)", floor=19)
     r2 = rep.rule("R12.2", "single-path containers fill at most one child on every path", floor=6)
     r3 = rep.rule("R12.3", "the repository's rollback marker comment does not follow an own-state store", floor=15)
     r4 = rep.rule("R12.4", "conversion helpers that fill relies on to reject a wrong-typed value let the conversion error escape", floor=1)
@@ -434,7 +434,10 @@ def run(repo, rep, tier):
                 rep.finding("R12.3", f, f.node, f"the comment 'no possibility of exception from here on out (for rollback)' "
                             f"(line {ln}) comes after an own-state store (line {first_store}): stated belief and code "
                             f"contradict each other", stmt="rollback marker after own-state store")
-    # Bag._update is reached through fill; make sure it was analysed
+    # Bag's state update lives in a helper (inlined into fill by the loader, or analysed as a function of its own): either way the
+    # stores into Bag's own state must have been seen
     bag = [c for c in prims if c.name == "Bag"][0]
-    if not any(k.endswith("Bag._update") for k in rep.analysed_functions):
-        raise AnalysisError("Bag._update was not reached from Bag.fill")
+    bf = repo.own_method(bag, "fill")
+    seen_store = any(own_store_targets(n, bf.params[0]) for n in walk_local_stmt(bf.node) if isinstance(n, ast.stmt))
+    if not seen_store and not any(k.endswith("Bag._update") for k in rep.analysed_functions):
+        raise AnalysisError("the state update of Bag.fill (Bag._update) was not reached")
